@@ -331,3 +331,56 @@ pub fn for_all_strings<T: Clone, F: FnMut(&[T])>(alphabet: &[T], max_len: usize,
     }
     rec(alphabet, max_len, &mut cur, &mut f);
 }
+
+// ---------------------------------------------------------------- Punycode boundary payloads (shared)
+fn pb_t(k: u128, bias: u128) -> u128 {
+    if k <= bias { 1 } else if k >= bias + 26 { 26 } else { k - bias }
+}
+fn pb_digit(d: u128) -> char {
+    if d < 26 { (b'a' + d as u8) as char } else { (b'0' + (d as u8 - 26)) as char }
+}
+/// lower-case digits of `delta` as an RFC 3492 generalized variable-length integer under `bias`
+pub fn puny_vli_digits(delta: u128, bias: u128) -> String {
+    let mut out = String::new();
+    let mut q = delta;
+    let mut k = 36;
+    loop {
+        let t = pb_t(k, bias);
+        if q < t {
+            break;
+        }
+        out.push(pb_digit(t + (q - t) % (36 - t)));
+        q = (q - t) / (36 - t);
+        k += 36;
+    }
+    out.push(pb_digit(q));
+    out
+}
+/// Deterministic decoder inputs (without the "xn--" prefix) whose FIRST delta puts the decoded code point or
+/// the insertion index on a boundary: surrogates, char::MAX, and the u32 limits of `i`, of `digit * weight`
+/// and of `code_point + i / (length + 1)`; 0..3 basic code points in front; each boundary with offsets -2..+2.
+pub fn puny_boundary_payloads() -> Vec<Vec<u8>> {
+    let targets: [u128; 16] = [
+        0x80, 0xd7ff, 0xd800, 0xdfff, 0xe000, 0x10ffff, 0x110000, (1u128 << 31) - 1, 1u128 << 31,
+        (1u128 << 32) - 0x81, (1u128 << 32) - 1, 1u128 << 32, (1u128 << 32) + 0x7f, (1u128 << 32) + 0x80, (1u128 << 33), 45_000_000_000,
+    ];
+    let mut v = Vec::new();
+    for l in 0u128..4 {
+        for t in targets {
+            for off in -2i128..=2 {
+                let base = (t - 0x80) * (l + 1);
+                let delta = if off < 0 { base.saturating_sub((-off) as u128) } else { base + off as u128 };
+                let mut b: Vec<u8> = (0..l).map(|i| b'a' + i as u8).collect();
+                if l > 0 {
+                    b.push(b'-');
+                }
+                b.extend_from_slice(puny_vli_digits(delta, 72).as_bytes());
+                v.push(b.clone());
+                // a second small delta behind it (bias 0 digits are plain values below 36)
+                b.push(b'b');
+                v.push(b);
+            }
+        }
+    }
+    v
+}
